@@ -237,7 +237,7 @@ func checkC19(c *Check) {
 			} else if _, isPtr := g.Params[0].Type().Underlying().(*types.Pointer); isPtr {
 				n := 0
 				eachInstr(g, func(i ssa.Instruction) {
-					if st, ok := i.(*ssa.Store); ok && strings.HasPrefix(Sym(st.Addr), "&*p:"+g.Params[0].Name()+".") {
+					if st, ok := i.(*ssa.Store); ok && strings.HasPrefix(Sym(st.Addr), "&*p:"+paramName(g.Params[0])+".") {
 						n++
 					}
 				})
